@@ -988,7 +988,7 @@ func r19_7(c *Ctx, rule string) {
 	// get a slice of their own are those above a threshold that is not above K
 	// (a guard of 32 KiB with chunks of 4 KiB makes `make` panic for every
 	// record in between)
-	eng.InstrsShallow(al, func(in ssa.Instruction) {
+	eng.Instrs(al, func(in ssa.Instruction) {
 		// (with a constant capacity go/ssa builds the slice as new [K]byte
 		// cut to [:n]; a variable capacity stays a MakeSlice)
 		var mk ssa.Instruction
@@ -1047,8 +1047,12 @@ func r19_7(c *Ctx, rule string) {
 				return
 			}
 			t := iff.Block().Succs[edge]
-			if k <= capK && len(t.Preds) == 1 && (t == mk.Block() || t.Dominates(mk.Block())) {
-				guarded = true
+			// (the chunk may be made in a helper: then the guard stands
+			// before the call of the helper)
+			for _, site := range eng.LiftTo(al, mk) {
+				if k <= capK && len(t.Preds) == 1 && (t == site.Block() || t.Dominates(site.Block())) {
+					guarded = true
+				}
 			}
 		})
 		c.R.Check(guarded, rule, fmt.Sprintf("%s/fresh-chunk-fits@%s", base, blockName(mk)), c.pos(mk), fmt.Sprintf("make([]byte, n, %d) only for n <= %d", capK, capK), fmt.Sprintf("a fresh chunk is made with capacity %d for requests that are not known to be that small (the oversize threshold is larger than the chunk): make panics with len > cap and no listing is written", capK))
